@@ -39,12 +39,10 @@ func acceptance(p gda.Parsed) string {
 	if !resultIn {
 		return "must-reject"
 	}
-	if abs64(p.WrittenExp) > gen.MaxExp || abs64(p.WrittenExp-p.Exp) > gen.MaxExp {
-		// (the second term is the length of the fraction)
-		// grammatical, result within the limits, but the written exponent field
-		// itself is beyond +/-100000: C04 and C14 pull in different directions
-		return "unconstrained"
-	}
+	// The written exponent field or the fraction alone may exceed +/-100000
+	// (0.001E+100002 is 1E+99999): only the value's exponent and adjusted
+	// exponent count. (Until the parser was repaired - fix bf02b9c - this case
+	// was left unconstrained here.)
 	return "must-accept"
 }
 
